@@ -518,6 +518,15 @@ impl<'a> GeneratorState<'a> {
             s += &dasm_operand;
         }
 
+        // An address constant (array name, immediate value) is not a place to write to
+        if dasm_operand.starts_with('#')
+            && matches!(mnemonic, STA | STX | STY | INC | DEC | ASL | LSR | ROL | ROR)
+        {
+            return Err(self
+                .compiler_state
+                .syntax_error("Can't write to a constant", pos));
+        }
+
         if let Some(f) = &self.current_function {
             let code: &mut AssemblyCode = self.functions_code.get_mut(f).unwrap();
             let instruction = AsmInstruction {
